@@ -164,8 +164,10 @@ Definition classify (p : arp_pkt) : arp_class :=
     else CRequest
   else CInvalidOp.
 
-(* ProcessPacket after the PayloadID / IsValid tests *)
+(* ProcessPacket after the PayloadID / IsValid tests (h.closed is read without a lock: residue) *)
 Definition rx_arp (c : cfg) (s : state) (p : arp_pkt) : state * list frame :=
+  if closed s then (s, [])       (* "if h.closed { return nil }" (repair of K3) *)
+  else
   match classify p with
   | CRequest =>
       if hunt_has (psmac p) (hunt s) && (ptip p =? router_ip c)
@@ -241,7 +243,8 @@ Definition known_C13_probe_router (c : cfg) (s : state) (e : event) : bool :=
   | RxArp p =>
       match classify p, offer_of (psmac p) (offers s) with
       | CProbe, Some offer =>
-          negb (offer =? ptip p) && in_lan c (ptip p) && (ptip p =? router_ip c) && negb (hunted s (psmac p))
+          negb (closed s) &&
+          (negb (offer =? ptip p) && in_lan c (ptip p) && (ptip p =? router_ip c) && negb (hunted s (psmac p)))
       | _, _ => false
       end
   | _ => false
@@ -249,10 +252,4 @@ Definition known_C13_probe_router (c : cfg) (s : state) (e : event) : bool :=
 
 (* (K2, DESIGN #27 — membership of the loop looked up by IP — was repaired in /repo; see known_findings.txt) *)
 
-(* K3: after Close the receive path (ProcessPacket has no test of h.closed) still emits a forged
-   frame: the spoof reply to a hunted MAC's who-has-router, or a probe-reject for the router's address. *)
-Definition known_C13_reply_after_close (c : cfg) (s : state) (e : event) : bool :=
-  match e with
-  | RxArp p => closed s && existsb (forged c) (snd (rx_arp c s p))
-  | _ => false
-  end.
+(* (K3 — forged replies on the receive path after Close — was repaired in /repo; see known_findings.txt) *)
